@@ -163,13 +163,24 @@ def run(ctx, rep):
         batch_next = {n for n in P.calls(r"iter::Iterator>?::next$")
                       if strip_ids(event_args(g, n)[0]) in (("arg", 2), ("arg", 3))}
 
-        def step(ms, pi, qi, learn, g=g, muts=muts, batch_next=batch_next):
+        refusal_set = set(refusals)
+
+        def step(ms, pi, qi, learn, g=g, muts=muts, batch_next=batch_next, refusal_set=refusal_set):
             mutated, facts = ms
             n = P_gnode(pi)
             if n in batch_next:
                 # a batch operation is judged per element: elements accepted earlier are legitimately kept
                 mutated, facts = None, frozenset()
             m = muts.get(n)
+            if isinstance(mutated, tuple) and mutated and mutated[0] == "refused":
+                # after a refusal was raised: any further mutation on the way out is a trace too
+                if m:
+                    return ("after", mutated[1], n, m[0][0]), facts
+                return (mutated, facts)
+            if isinstance(mutated, tuple) and mutated and mutated[0] == "after":
+                return (mutated, facts)
+            if n in refusal_set and mutated is None:
+                return (("refused", n), facts)
             if m:
                 if mutated is None:
                     mutated = (n, m[0][0])
@@ -190,8 +201,17 @@ def run(ctx, rep):
         seen = run_monitor(P, (None, frozenset()), step)
         n_ref += len(refusals)
         reported = set()
+        after = next(((pi, ms) for (pi, ms) in seen if isinstance(ms[0], tuple) and ms[0] and ms[0][0] == "after"), None)
+        if after:
+            _t, rn, mn, md = after[1][0]
+            k = "%s|%s-after-refusal" % (op, md)
+            rep.violation("R06.1", k, "%s: error path" % op,
+                          "after a %s was refused (at %s) the error path still performs `%s` (%s): the refusal leaves a trace (e.g. an earlier, "
+                          "accepted but unflushed record is cut out of the WAL buffer)" % (op, g.where(rn), md, g.where(mn)), where=g.where(mn),
+                          path=describe_path(P, [k_[0] for k_ in path_to(seen, after)]))
         for n in refusals:
-            bad = next(((pi, ms) for (pi, ms) in seen if P.gnode(pi) == n and ms[0] is not None), None)
+            bad = next(((pi, ms) for (pi, ms) in seen if P.gnode(pi) == n and ms[0] is not None
+                        and not (isinstance(ms[0], tuple) and ms[0] and ms[0][0] in ("refused", "after"))), None)
             reach_any = any(P.gnode(pi) == n for (pi, ms) in seen)
             site = "refusal in %s" % fmt_chain(g, n).split(" > ")[-1]
             if bad:
